@@ -2,13 +2,292 @@
  * Compiles src/vnacal_new_solve_auto.c from the working tree, unmodified, with its DEBUG prints
  * enabled and routed (like the weight constructor and the solvers) to the taps of
  * selfcal_harness.c.
+ *
+ * Per-pass kernel dump (environment variable WBK_DUMP set; property C02, package E): every input
+ * and every intermediate result of one pass of the Levenberg-Marquardt loop, for the comparison
+ * with coq/SelfCal/AutoKernelModel.v.  The source text of solve_auto is still compiled unmodified:
+ *   - _vnacal_new_solve_update_all_v_matrices (called once per pass right after the solve for
+ *     x_vector, with the solve state) and the weight constructor are routed through taps that see
+ *     the solve state and the weight vector;
+ *   - solve_auto's own print_cmatrix() output (DEBUG 2: a, b, x, j, k, j1, k1, d) is caught by the
+ *     printf tap and re-printed with 17 significant digits.
+ * Lines (all start with "wbk"):
+ *   wbk pass <findex> <equations> <x_length> <p_length> <correlated> <systems> <unknowns per system>
+ *   wbk p <re im>*p_length                       vnss_p_vector[..][findex] on entry of the pass
+ *   wbk eq <sindex> <w | -> <nterms> { <neg 0|1> <m: re im | -> <s: K re im | U idx | -> <v: re im | -> <xindex | -> }*
+ *   wbk corr <weight> <pindex1> <U idx | K re im>
+ *   wbk eqvj <sindex> <nterms> { <v: re im | -> }*   the v factors as the Jacobian loop reads them
+ *   wbk mat <name> <re im>*                      a, b, x, j, k, best_*, j1, k1, d in row-major order
+ *   wbk det <re im>                              value returned by _vnacommon_mldivide
  */
-#define _vnacal_new_solve_calc_weights	wb_calc_weights
-#define _vnacommon_qr			wb_qr
-#define _vnacommon_mldivide		wb_mldivide
+#define _vnacal_new_solve_calc_weights		wbk_calc_weights
+#define _vnacal_new_solve_update_all_v_matrices	wbk_update_all_v
+#define _vnacommon_qr				wb_qr
+#define _vnacommon_mldivide			wbk_mldivide
 #define DEBUG 2
-#define printf wb_printf
+#define printf wbk_printf
 #include "vnacal_new_solve_auto.c"
+#undef printf
+#undef _vnacal_new_solve_calc_weights
+#undef _vnacal_new_solve_update_all_v_matrices
+#undef _vnacommon_qr
+#undef _vnacommon_mldivide
+#include <stdarg.h>
+
+int printf(const char *fmt, ...);
+
+/* the library's function behind the tap */
+int _vnacal_new_solve_update_all_v_matrices(const char *function,
+	vnacal_new_solve_state_t *vnssp, const double complex *x_vector, int x_length);
+
+/* taps of selfcal_harness.c */
+double *wb_calc_weights(vnacal_new_solve_state_t *vnssp);
+double complex wb_mldivide(complex double *x, complex double *a, const double complex *b,
+	int m, int n);
+int wb_printf(const char *fmt, ...);
+
+static int wbk_on = -1;
+static int wbk_inmat;
+
+static int wbk_enabled(void)
+{
+    if (wbk_on < 0)
+	wbk_on = getenv("WBK_DUMP") != NULL;
+    return wbk_on;
+}
+
+static void wbk_opt(bool have, double complex v)
+{
+    if (have)
+	printf(" %.17g %.17g", creal(v), cimag(v));
+    else
+	printf(" -");
+}
+
+/*
+ * wbk_dump_pass: everything one pass reads.  The equations are walked with the library's own
+ * iterator, exactly as the two loops of solve_auto do; the factors of every term are printed
+ * separately.  The iterator is restarted by solve_auto (vs_start_system) before its next use.
+ */
+static void wbk_dump_pass(vnacal_new_solve_state_t *vnssp, const double *w_vector,
+	int equations, int x_length)
+{
+    vnacal_new_t *vnp = vnssp->vnss_vnp;
+    const vnacal_layout_t *vlp = &vnp->vn_layout;
+    const int findex = vnssp->vnss_findex;
+    const double frequency = vnp->vn_frequency_vector[findex];
+    const int p_length = vnp->vn_unknown_parameters;
+    int equation = 0;
+
+    printf("wbk pass %d %d %d %d %d %d %d\n", findex, equations, x_length, p_length,
+	    vnp->vn_correlated_parameters, vnp->vn_systems, vlp->vl_t_terms - 1);
+    printf("wbk p");
+    for (int i = 0; i < p_length; ++i)
+	printf(" %.17g %.17g", creal(vnssp->vnss_p_vector[i][findex]),
+		cimag(vnssp->vnss_p_vector[i][findex]));
+    printf("\n");
+    for (int sindex = 0; sindex < vnp->vn_systems; ++sindex) {
+	vs_start_system(vnssp, sindex);
+	while (vs_next_equation(vnssp)) {
+	    vnacal_new_equation_t *vnep = vnssp->vnss_vnep;
+	    vnacal_new_measurement_t *vnmp = vnep->vne_vnmp;
+	    int nterms = 0;
+
+	    while (vs_next_term(vnssp))
+		++nterms;
+	    printf("wbk eq %d", sindex);
+	    if (w_vector != NULL)
+		printf(" %.17g", w_vector[equation]);
+	    else
+		printf(" -");
+	    printf(" %d", nterms);
+	    /* second walk over the same equation: restart the term iterator */
+	    vnssp->vnss_iterator_state = VNACAL_NI_EQUATION;
+	    vnssp->vnss_vntp = NULL;
+	    while (vs_next_term(vnssp)) {
+		const int xindex = vs_get_xindex(vnssp);
+		const int s_cell = vs_get_s_cell(vnssp);
+
+		printf(" %d", vs_get_negative(vnssp) ? 1 : 0);
+		wbk_opt(vs_have_m(vnssp), vs_have_m(vnssp) ? vs_get_m(vnssp) : 0.0);
+		if (s_cell < 0) {
+		    printf(" -");
+		} else {
+		    vnacal_new_parameter_t *vnprp = vnmp->vnm_s_matrix[s_cell];
+
+		    if (vnprp != NULL && vnprp->vnpr_unknown) {
+			printf(" U %d", vnprp->vnpr_unknown_index);
+		    } else {
+			double complex s = vs_get_s(vnssp);
+
+			printf(" K %.17g %.17g", creal(s), cimag(s));
+		    }
+		}
+		wbk_opt(vs_have_v(vnssp), vs_have_v(vnssp) ? vs_get_v(vnssp) : 0.0);
+		if (xindex >= 0)
+		    printf(" %d", xindex);
+		else
+		    printf(" -");
+	    }
+	    printf("\n");
+	    ++equation;
+	}
+    }
+    for (vnacal_new_parameter_t *vnprp1 = vnp->vn_unknown_parameter_list; vnprp1 != NULL;
+	    vnprp1 = vnprp1->vnpr_next_unknown) {
+	vnacal_parameter_t *vpmrp1 = vnprp1->vnpr_parameter;
+	vnacal_new_parameter_t *vnprp2;
+
+	if (vpmrp1->vpmr_type != VNACAL_CORRELATED)
+	    continue;
+	vnprp2 = vnprp1->vnpr_correlate;
+	printf("wbk corr %.17g %d", 1.0 / _vnacal_get_correlated_sigma(vpmrp1, frequency),
+		vnprp1->vnpr_unknown_index);
+	if (vnprp2->vnpr_unknown) {
+	    printf(" U %d\n", vnprp2->vnpr_unknown_index);
+	} else {
+	    double complex v = _vnacal_get_parameter_value_i(vnprp2->vnpr_parameter, frequency);
+
+	    printf(" K %.17g %.17g\n", creal(v), cimag(v));
+	}
+    }
+}
+
+/*
+ * wbk_dump_vj: the v factor of every term as the SECOND walk of the pass (Jacobian and residual)
+ * reads it, i.e. after _vnacal_new_solve_update_all_v_matrices has recomputed the V matrices from
+ * the x_vector of this pass (a_matrix and b_vector were formed with the previous ones).
+ *   wbk eqvj <sindex> <nterms> { <v: re im | -> }*
+ */
+static void wbk_dump_vj(vnacal_new_solve_state_t *vnssp)
+{
+    vnacal_new_t *vnp = vnssp->vnss_vnp;
+
+    for (int sindex = 0; sindex < vnp->vn_systems; ++sindex) {
+	vs_start_system(vnssp, sindex);
+	while (vs_next_equation(vnssp)) {
+	    int nterms = 0;
+
+	    while (vs_next_term(vnssp))
+		++nterms;
+	    printf("wbk eqvj %d %d", sindex, nterms);
+	    vnssp->vnss_iterator_state = VNACAL_NI_EQUATION;
+	    vnssp->vnss_vntp = NULL;
+	    while (vs_next_term(vnssp))
+		wbk_opt(vs_have_v(vnssp), vs_have_v(vnssp) ? vs_get_v(vnssp) : 0.0);
+	    printf("\n");
+	}
+    }
+}
+
+static const double *wbk_w_vector;
+
+double *wbk_calc_weights(vnacal_new_solve_state_t *vnssp)
+{
+    double *w = wb_calc_weights(vnssp);
+
+    wbk_w_vector = w;
+    return w;
+}
+
+/*
+ * wbk_update_all_v: solve_auto calls _vnacal_new_solve_update_all_v_matrices once per pass, after
+ * the QR solve for x_vector and before anything else is changed; the pass is dumped here.  The
+ * weight vector of the current call is the one last returned by the weight constructor when (and
+ * only when) an error model is set -- the condition solve_auto itself uses.
+ */
+int wbk_update_all_v(const char *function, vnacal_new_solve_state_t *vnssp,
+	const double complex *x_vector, int x_length)
+{
+    vnacal_new_t *vnp = vnssp->vnss_vnp;
+    int rv;
+
+    if (wbk_enabled())
+	wbk_dump_pass(vnssp, vnp->vn_m_error_vector != NULL ? wbk_w_vector : NULL,
+		vnp->vn_equations, x_length);
+    rv = _vnacal_new_solve_update_all_v_matrices(function, vnssp, x_vector, x_length);
+    if (rv != -1 && wbk_enabled())
+	wbk_dump_vj(vnssp);
+    return rv;
+}
+
+double complex wbk_mldivide(complex double *x, complex double *a,
+	const double complex *b, int m, int n)
+{
+    double complex d = wb_mldivide(x, a, b, m, n);
+
+    if (wbk_enabled())
+	printf("wbk det %.17g %.17g\n", creal(d), cimag(d));
+    return d;
+}
+
+/*
+ * wbk_printf: solve_auto's printf.  The pieces of print_cmatrix ("%s = [\n", " %+.6f%+.6fj", "\n",
+ * "]\n") are re-printed in full precision when the kernel dump is on and dropped otherwise; every
+ * other format is handed to wb_printf of selfcal_harness.c with its arguments (at most two, all
+ * double, or one int).
+ */
+int wbk_printf(const char *fmt, ...)
+{
+    va_list ap;
+    int rv = 0;
+
+    va_start(ap, fmt);
+    if (strcmp(fmt, "%s = [\n") == 0) {
+	const char *name = va_arg(ap, const char *);
+
+	wbk_inmat = 1;
+	if (wbk_enabled())
+	    printf("wbk mat %s", name);
+    } else if (strcmp(fmt, " %+.6f%+.6fj") == 0) {
+	double re = va_arg(ap, double);
+	double im = va_arg(ap, double);
+
+	if (wbk_enabled())
+	    printf(" %.17g %.17g", re, im);
+    } else if (wbk_inmat && strcmp(fmt, "\n") == 0) {
+	/* end of a matrix row */
+    } else if (wbk_inmat && strcmp(fmt, "]\n") == 0) {
+	wbk_inmat = 0;
+	if (wbk_enabled())
+	    printf("\n");
+    } else {
+	int nconv = 0;
+	char kind = 0;
+
+	for (const char *p = fmt; *p != '\0'; ++p) {
+	    if (*p != '%')
+		continue;
+	    ++p;
+	    if (*p == '%')
+		continue;
+	    while (*p != '\0' && strchr("+-# 0123456789.", *p) != NULL)
+		++p;
+	    kind = *p;
+	    ++nconv;
+	    if (*p == '\0')
+		break;
+	}
+	if (nconv == 0) {
+	    rv = wb_printf(fmt);
+	} else if (kind == 'd' && nconv == 1) {
+	    int i = va_arg(ap, int);
+
+	    rv = wb_printf(fmt, i);
+	} else if (nconv == 1) {
+	    double a = va_arg(ap, double);
+
+	    rv = wb_printf(fmt, a);
+	} else {
+	    double a = va_arg(ap, double);
+	    double b = va_arg(ap, double);
+
+	    rv = wb_printf(fmt, a, b);
+	}
+    }
+    va_end(ap);
+    return rv;
+}
 
 /* the two static walks, callable from the "wbguard" command of selfcal_harness.c */
 #undef printf
